@@ -480,6 +480,32 @@ Example alternatives_example :
   c02_guard c (OInt 1) = true.
 Proof. vm_compute. repeat split; reflexivity. Qed.
 
+(* stored conditions: the object reaches the branch through definition d; the stored flag tells the truth
+   about it only if d was current when the condition was evaluated *)
+Theorem stored_narrow_keeps_value : forall cur cons V c pol o d,
+  In d cur -> member o V = true -> (In d cons -> holds c o = Some pol) -> c02_guard c o = true ->
+  member o (stored_narrow cur cons V c pol) = true.
+Proof.
+  intros cur cons V c pol o d Hd Hm Hh Hg. unfold stored_narrow, stored_narrow_with, model_stale_test. simpl.
+  destruct (forallb (fun d0 => mem_id d0 cons) cur) eqn:E; [|exact Hm].
+  rewrite forallb_forall in E. pose proof (E d Hd) as Hin. unfold mem_id in Hin.
+  apply existsb_exists in Hin. destruct Hin as [d' [Hin' Heq]]. apply Nat.eqb_eq in Heq. subst d'.
+  apply (narrow_keeps_value_partial V c pol o Hm (Hh Hin') Hg).
+Qed.
+
+(* with the "rebound on every path" test instead, an object bound by a definition the condition never
+   saw is lost: x: int | str; was_int = isinstance(x, int); if flag: x = "hello"; if was_int: ... *)
+Lemma stored_disjoint_rule_refuted :
+  exists cur cons V c pol o d,
+    In d cur /\ member o V = true /\ (In d cons -> holds c o = Some pol) /\ c02_guard c o = true /\
+    member o (stored_narrow_with StaleIfDisjoint cur cons V c pol) = false.
+Proof.
+  exists [1; 2], [1], [plain (VTyped CInt); plain (VKnown (OStr [104%N]))], (CIsInstance [CInt]), true, (OStr [104%N]), 2.
+  repeat split; try reflexivity.
+  - right. left. reflexivity.
+  - intros [H|[]]. discriminate.
+Qed.
+
 Lemma narrow_keeps_value_refuted : ~ narrow_keeps_value_full_statement.
 Proof.
   intros H.
